@@ -1,4 +1,5 @@
 import IwModel.Lemmas.Wal
+import IwModel.Lemmas.WalWriter
 /-! # C05 — a damaged or cut-off log tail never yields a state that is not a synced prefix
 
 Property theorems over the executable model `IwModel.Wal` (pre-scan `_last_fix_and_reset_points`,
@@ -352,5 +353,69 @@ example : ∃ f, (f = 0 ∨ ((f, Rec.savepoint) ∈ walk exLog ∧ f + 12 ≤ 40
 
 example : recover exCfg 1 exLog exMain = (.ok, [9,9,7,7,7,9,9,9], []) := by decide
 example : recover exCfg 1 (exLog.take 40) exMain = (.ok, exMain, []) := by decide
+
+/-! ## the writer: every log `_write_wl/_flush_wl/_savepoint_exl/_checkpoint_exl` can leave in the file satisfies the
+hypotheses of the theorems above (they no longer have to be evaluated log by log) -/
+
+/-- **Writer-produced logs are well-formed.**  Start from any main file with an empty log and take any sequence of
+writer steps (listener events that fit their C types and lie inside the file, flushes, syncs, savepoints,
+checkpoints, resize-forced checkpoints).  The log file then (1) is empty or starts with a separator, (2) closes every
+segment no later than the next savepoint record ends (`SegClosed`), (3) holds no reset mark, (4) has pairwise disjoint
+segments (the `hdisj` hypothesis of `crc_detects_partial`), (5) decodes to its very end, (6) rolls forward over the
+current main file without error, and (7) what was `fsync`ed is a prefix of it. -/
+theorem writer_log_wellformed (c : WalWriter.WCfg) (hc : c.Ok) (m : Bytes) (tr : List WalWriter.Step)
+    (hv : WalWriter.ValidTrace c (WalWriter.init m) tr) :
+    let s := WalWriter.run c (WalWriter.init m) tr
+    (s.log = [] ∨ s.log.headD 0 = WOP_SEP) ∧ SegClosed s.log ∧ (∀ p, (p, Rec.reset) ∉ walk s.log) ∧
+    (∀ p cr len, (p, Rec.sep cr len) ∈ walk s.log → ∀ q c' l', (q, Rec.sep c' l') ∈ walk s.log → q < p → q + 12 + l' ≤ p) ∧
+    walkFull s.log = true ∧ (replay c.rd 0 s.log s.main).rc = .ok ∧ s.fsynced ≤ s.log.length := by
+  intro s
+  obtain ⟨g, hi⟩ := WalWriter.run_inv c hc tr _ _ (WalWriter.Inv_init c m) hv
+  obtain ⟨hw, h1, h2, h3, h4⟩ := WalWriter.wf_facts hi
+  refine ⟨h1, ?_, h2, ?_, h3, h4, hi.fs⟩
+  · intro p cr l sp hp hs hlt
+    rw [hw] at hp hs
+    exact hi.w.wf.closed p cr l sp hp hs hlt
+  · intro p cr len hp q c' l' hq hlt
+    rw [hw] at hp hq
+    exact hi.w.wf.disj q c' l' p cr len hq hp hlt
+
+/-- **`recover_cut` for every writer-produced log**, without evaluated hypotheses: whatever the writer did, and wherever
+the log file is then cut, recovery succeeds in the state of a savepoint of that log that lies inside the cut with all
+its predecessors, not older than any intact one. -/
+theorem writer_recover_cut (c : WalWriter.WCfg) (hc : c.Ok) (m : Bytes) (tr : List WalWriter.Step)
+    (hv : WalWriter.ValidTrace c (WalWriter.init m) tr) (n : Nat) (hn : n ≤ (WalWriter.run c (WalWriter.init m) tr).log.length) :
+    let s := WalWriter.run c (WalWriter.init m) tr
+    ∃ f, (f = 0 ∨ ((f, Rec.savepoint) ∈ walk s.log ∧ f + 12 ≤ n)) ∧
+      (∀ q, (q, Rec.savepoint) ∈ walk s.log → q + 12 ≤ n → q ≤ f) ∧
+      Wal.recover c.rd 1 (s.log.take n) s.main = (.ok, stateAt c.rd s.log s.main f, []) := by
+  intro s
+  obtain ⟨h1, h2, h3, _, _, h6, _⟩ := writer_log_wellformed c hc m tr hv
+  rcases h1 with h1 | h1
+  · refine ⟨0, Or.inl rfl, ?_, ?_⟩
+    · intro q hq; rw [show s.log = [] from h1] at hq; simp [walk, walkAux] at hq
+    · rw [show s.log = [] from h1]; simp [Wal.recover, rollforward, stateAt]
+  · exact recover_cut c.rd s.log s.main n hn h1 h2 h3 h6
+
+/-- a writer configuration with room for 5 records of 12 bytes, a constant checksum -/
+def exW : WalWriter.WCfg := { crcOn := false, crc := fun _ => 0, bufsz := 60, ckptBufSz := 1000, maxoff := 0 }
+
+theorem exW_ok : exW.Ok := ⟨by decide, by decide, fun _ => by show 0 < 2 ^ 32; omega⟩
+
+/-- non-vacuity: a store, a savepoint, another store, a flush — a valid trace; its log is the 96 bytes of two segments -/
+example : WalWriter.ValidTrace exW (WalWriter.init exMain) [.set 2 7 3, .savepoint 1 true, .write 0 [1, 2], .flush] :=
+  ⟨by decide, trivial, by decide, trivial, trivial⟩
+
+example : (WalWriter.run exW (WalWriter.init exMain) [.set 2 7 3, .savepoint 1 true, .write 0 [1, 2], .flush]).log.length = 82 := by decide
+
+/-- `writer_recover_cut` instantiated: the 82-byte log cut inside its second segment still recovers -/
+example : ∃ f, (Wal.recover exW.rd 1 ((WalWriter.run exW (WalWriter.init exMain) [.set 2 7 3, .savepoint 1 true, .write 0 [1, 2], .flush]).log.take 60)
+    (WalWriter.run exW (WalWriter.init exMain) [.set 2 7 3, .savepoint 1 true, .write 0 [1, 2], .flush]).main).1 = .ok ∧ f + 12 ≤ 60 := by
+  obtain ⟨f, h1, _, h3⟩ := writer_recover_cut exW exW_ok exMain [.set 2 7 3, .savepoint 1 true, .write 0 [1, 2], .flush]
+    ⟨by decide, trivial, by decide, trivial, trivial⟩ 60 (by decide)
+  refine ⟨if f = 0 then 0 else f, by rw [h3], ?_⟩
+  rcases h1 with rfl | ⟨_, h⟩
+  · simp
+  · split <;> omega
 
 end IwModel.C05
